@@ -9,6 +9,8 @@ pub mod c06;
 pub mod c07;
 pub mod c08;
 pub mod c08_fn;
+pub mod c15;
+pub mod c15_world;
 pub mod c16;
 pub mod c16_fn;
 pub mod c19;
@@ -26,6 +28,7 @@ pub fn run(id: &str, ctx: &Ctx) -> i32 {
         "C05" => finish(ctx, c05::run(ctx), Some(&c05::replay)),
         "C06" => finish(ctx, c06::run(ctx), Some(&c06::replay)),
         "C08" => finish(ctx, c08::run(ctx), Some(&c08::replay)),
+        "C15" => finish(ctx, c15::run(ctx), Some(&c15::replay)),
         "C16" => finish(ctx, c16::run(ctx), Some(&c16::replay)),
         "C19" => finish(ctx, c19::run(ctx), Some(&c19::replay)),
         "C12" => finish(ctx, c12::run(ctx), Some(&c12::replay)),
@@ -47,6 +50,7 @@ pub fn replay(id: &str, case: &Value) -> Result<(), String> {
         "C05" => c05::replay(case),
         "C06" => c06::replay(case),
         "C08" => c08::replay(case),
+        "C15" => c15::replay(case),
         "C16" => c16::replay(case),
         "C19" => c19::replay(case),
         "C12" => c12::replay(case),
